@@ -23,6 +23,13 @@ class Ctx:
         self.orders = cauchy.orders_upto(self.n_params, self.K)
         self.N = len(problem["assign"])
         self.E = energies(problem, self.exact)
+        # The defining equations are invariant under H_0 -> H_0 - s: the reference solvers work with shifted energies
+        # (they multiply by H_0 explicitly and would lose accuracy on a large common offset) and add s back to H_tilde_0.
+        from fractions import Fraction
+
+        sh = Fraction(problem.get("ref_shift", 0), problem["eden"])
+        self.shift = GQ(sh) if self.exact else float(sh)
+        self.E_ref = [e - self.shift for e in self.E]
         self.S = kept_mask(problem)
         self.R = ~self.S
         self.terms = term_arrays(problem, self.exact)
@@ -115,6 +122,8 @@ def labels_for(problem):
         labs.append("higher-order-input-terms")
     if any(e == 0 for e in problem["energy"]):
         labs.append("zero-energy-level")
+    if problem.get("ref_shift"):
+        labs.append("far-offset-spectrum")
     st_ = [[i for i, a in enumerate(problem["assign"]) if a == b] for b in range(len(problem["blocks"]))]
     if any(len({(problem["energy"][i], problem["eimag"][i]) for i in s}) < len(s) for s in st_):
         labs.append("degenerate-level-in-block")
@@ -227,9 +236,12 @@ def check_gauge(ctx, res):
 
 def reference(ctx, hermitian=True):
     if hermitian:
-        U, Ht = refsolve.solve_hermitian(ctx.E, ctx.terms, ctx.S, ctx.orders, exact=ctx.exact)
-        return {"U": U, "Ui": {n: u.conj().T for n, u in U.items()}, "Ht": Ht}
-    U, G, Ht = refsolve.solve_nonhermitian(ctx.E, ctx.terms, ctx.S, ctx.orders, exact=ctx.exact)
+        U, Ht = refsolve.solve_hermitian(ctx.E_ref, ctx.terms, ctx.S, ctx.orders, exact=ctx.exact)
+        G = {n: u.conj().T for n, u in U.items()}
+    else:
+        U, G, Ht = refsolve.solve_nonhermitian(ctx.E_ref, ctx.terms, ctx.S, ctx.orders, exact=ctx.exact)
+    Ht = dict(Ht)
+    Ht[ctx.zero] = Ht[ctx.zero] + ctx.eye() * ctx.shift
     return {"U": U, "Ui": G, "Ht": Ht}
 
 
@@ -311,7 +323,8 @@ def check_rayleigh_schroedinger(ctx, Ht):
             continue
         if any(E[j] == E[i] for j in range(ctx.N) if j != i):
             continue
-        rs = refsolve.rayleigh_schroedinger(E, ctx.terms, i, ctx.orders, exact=ctx.exact)
+        rs = refsolve.rayleigh_schroedinger(ctx.E_ref, ctx.terms, i, ctx.orders, exact=ctx.exact)
+        rs[ctx.zero] = rs[ctx.zero] + ctx.shift
         count += 1
         for n in ctx.orders:
             got = Ht[n][i, i]
